@@ -7,7 +7,8 @@
 (* A request is a vector over EVERY parameter of the solver signature;     *)
 (* each parameter takes the value 0 or 1 (two different concrete values),  *)
 (* halo takes 0 = None, 1 = an explicit width equal to the default,        *)
-(* 2 = another explicit width.  Sol(r) is the result token: the request    *)
+(* 2 = another explicit width, 3 = an explicit width of zero (legitimate:  *)
+(* the purely periodic solution; a value Python treats as false).  Sol(r) is the result token: the request    *)
 (* restricted to the parameters that determine a footprint-mode result,    *)
 (* with the halo resolved.                                                 *)
 (*                                                                         *)
@@ -36,8 +37,8 @@ AbsentE == Entry("absent", NoVal)
 PartialE == Entry("partial", NoVal)
 KeyGet(r) == [p \in KeyFields |-> IF HaloAtGet = "resolved" THEN Resolve(r)[p] ELSE r[p]]
 KeyPut(r) == [p \in KeyFields |-> Resolve(r)[p]]
-Keys == {KeyGet(r) : r \in {R0, [R0 EXCEPT !["halo"] = 1], [R0 EXCEPT !["halo"] = 2]} \cup {Variant(f) : f \in Params}}
-        \cup {KeyPut(r) : r \in {R0, [R0 EXCEPT !["halo"] = 1], [R0 EXCEPT !["halo"] = 2]} \cup {Variant(f) : f \in Params}}
+Keys == {KeyGet(r) : r \in {R0, [R0 EXCEPT !["halo"] = 1], [R0 EXCEPT !["halo"] = 2], [R0 EXCEPT !["halo"] = 3]} \cup {Variant(f) : f \in Params}}
+        \cup {KeyPut(r) : r \in {R0, [R0 EXCEPT !["halo"] = 1], [R0 EXCEPT !["halo"] = 2], [R0 EXCEPT !["halo"] = 3]} \cup {Variant(f) : f \in Params}}
 
 (***************************************************************************)
 (* Scenarios: sequences of operations.                                     *)
@@ -54,7 +55,7 @@ Scenarios ==
     \cup {<<Req(R0), Req(Variant(f)), Req(R0)>> : f \in Params}
     \cup {<<Req(R0), <<"newproc">>, Req(Variant(f)), <<"newproc">>, Req(R0)>> : f \in Params}
     \cup {<<Req(Variant(f)), Req(R0), Req(Variant(f))>> : f \in Params}
-    \cup {<<Req(HaloR(a)), Req(HaloR(b)), Req(HaloR(a))>> : a \in 0..2, b \in 0..2}
+    \cup {<<Req(HaloR(a)), Req(HaloR(b)), Req(HaloR(a))>> : a \in 0..3, b \in 0..3}
     \cup {<<Req(R0), <<"corrupt", R0>>, Req(R0), Req(R0)>>, <<Req(R0), <<"corrupt", R0>>, <<"newproc">>, Req(R0), Req(R0)>>}
     \cup {<<Req(HaloR(2)), <<"corrupt", HaloR(2)>>, Req(HaloR(2)), Req(HaloR(2))>>}
 
@@ -146,7 +147,7 @@ Effective ==
 \* a partial entry is never what a lookup returns (it has no value in the model; this is the disk-side statement)
 \* entries on disk are right: a complete entry under key k holds the result of every request that maps to k
 StoreSound == \A k \in Keys : vstore[k].st = "complete" =>
-                 \A r \in {R0, HaloR(1), HaloR(2)} \cup {Variant(f) : f \in Params} : KeyGet(r) = k => vstore[k].val = Sol(r)
+                 \A r \in {R0, HaloR(1), HaloR(2), HaloR(3)} \cup {Variant(f) : f \in Params} : KeyGet(r) = k => vstore[k].val = Sol(r)
 
 Emit == (vpc = "idle" /\ vtodo = << >>) => PrintT("@@" \o ToJson([log |-> vlog]))
 \* observation variables are kept out of the fingerprint where they do not influence behaviour
